@@ -278,6 +278,27 @@ def zmk_obs(prog, res, zfi):
                 except NotXor as ex:
                     return [definite(f'the components are combined with the operator {ex}, not with XOR')]
                 if f is None:
+                    if k >= 2:
+                        srcs = set(map(id, parts.values()))
+                        for e in p.events:
+                            if e.kind != 'make-set' or not e.under(zfi.short):
+                                continue
+                            hit = set()
+                            for x in e.data['of']:
+                                x = p.interp.resolve(x)
+                                o = p.interp.origin.get(x.lin.syms()[0]) if isinstance(x, IntV) and len(x.lin.syms()) == 1 else None
+                                if o and o[0] == 'int' and isinstance(o[1], SeqV) and len(o[1].segs) == 1 and \
+                                        isinstance(o[1].segs[0], Sl) and id(o[1].segs[0].src) in srcs:
+                                    hit.add(id(o[1].segs[0].src))
+                                elif isinstance(x, SeqV) and len(x.segs) == 1 and isinstance(x.segs[0], Sl) and id(x.segs[0].src) in srcs:
+                                    hit.add(id(x.segs[0].src))
+                            folded = any(x.kind == 'for-iter' and p.interp.resolve(x.data['iterable']) is e.data['result'] for x in p.events)
+                            carried = isinstance(clear, SeqV) and any(isinstance(g, Num) and g.val is not None and
+                                                                      any('@loop' in sy for sy in g.val.syms()) for g in clear.segs)
+                            if len(hit) >= 2 and folded and (carried or mode == 'unroll'):
+                                return [definite('the key components are collected in a set before they are combined: a component '
+                                                 'that is supplied twice is combined once instead of cancelling out (a ^ a = 0), '
+                                                 'so the clear key is not the XOR of all components', e.node, firm=True)]
                     return [soft(f'clear key {clear!r} is not recognised as a hexadecimal XOR of the components')]
                 fails = []
                 if sorted(f[0]) != want:
